@@ -4,30 +4,30 @@ import PynetVerif.Model.Scu
 namespace PynetVerif.Driver
 open PynetVerif.Scu
 
-def kindOfSym : String → Option Kind
+private def kindOfSym : String → Option Kind
   | "find" => some .find | "get" => some .get | "move" => some .move | "store" => some .store
   | "echo" => some .echo | "nAction" => some .nAction | "nCreate" => some .nCreate
   | "nDelete" => some .nDelete | "nEventReport" => some .nEventReport | "nGet" => some .nGet
   | "nSet" => some .nSet | _ => none
 
-def identOfSym : String → Option Ident
+private def identOfSym : String → Option Ident
   | "absent" => some .absent | "empty" => some .empty | "good" => some .good | "bad" => some .bad
   | _ => none
 
-def noRspOfSym : String → Option NoRsp
+private def noRspOfSym : String → Option NoRsp
   | "timeout" => some .timeout | "aAbort" => some .aAbort | "apAbort" => some .apAbort
   | "dead" => some .dead | _ => none
 
-def storeCxOfSym : String → Option StoreCx
+private def storeCxOfSym : String → Option StoreCx
   | "noClass" => some .noClass | "unaccepted" => some .unaccepted | "accepted" => some .accepted
   | _ => none
 
-def svcOfSym : String → Option Svc
+private def svcOfSym : String → Option Svc
   | "echo" => some .echo | "store" => some .store | "nDelete" => some .nDelete
   | "nAction" => some .nAction | "nCreate" => some .nCreate | "nEventReport" => some .nEventReport
   | "nGet" => some .nGet | "nSet" => some .nSet | _ => none
 
-def msgOfSExp : SExp → Option PeerMsg
+private def msgOfSExp : SExp → Option PeerMsg
   | .list [.sym "rsp", .sym k, .sym v, .nat st, .sym id] => do
       let k ← kindOfSym k
       let id ← identOfSym id
@@ -36,22 +36,22 @@ def msgOfSExp : SExp → Option PeerMsg
   | .list [.sym "none", .sym w] => do pure (.none (← noRspOfSym w))
   | _ => none
 
-def msgsOfSExp : List SExp → Option (List PeerMsg)
+private def msgsOfSExp : List SExp → Option (List PeerMsg)
   | [] => some []
   | x :: xs => do
       let m ← msgOfSExp x
       let ms ← msgsOfSExp xs
       pure (m :: ms)
 
-def identResToSExp : IdentRes → SExp
+private def identResToSExp : IdentRes → SExp
   | .none => .sym "none" | .emptyDs => .sym "empty" | .ds => .sym "ds"
 
-def yieldToSExp (y : Yield) : SExp :=
+private def yieldToSExp (y : Yield) : SExp :=
   .list [SExp.ofOptNat y.status, identResToSExp y.ident, SExp.ofBool y.lockHeld, SExp.ofBool y.paused]
 
 /-- the observable summary of a trace:
 (yields aborts recvs (store-rsp statuses) checkpoint-set-at-end lock-held-at-end raised return) -/
-def summary (es : List Ev) : SExp :=
+private def summary (es : List Ev) : SExp :=
   let fin := finalState St.init es
   .list [
     .list ((observe St.init es).map yieldToSExp),
@@ -61,7 +61,7 @@ def summary (es : List Ev) : SExp :=
     | none => .sym "none"
     | some (s, r) => .list [SExp.ofOptNat s, identResToSExp r]]
 
-def scuRun : List SExp → SExp
+private def scuRun : List SExp → SExp
   | [.sym svc, .list msgs] =>
     match msgsOfSExp msgs with
     | none => .sym "ERR:msg"
